@@ -1,5 +1,4 @@
 import BridgeVerif.Lemmas.Auction
-import BridgeVerif.Translated.Auction
 /-!
 # C03 — The final contract is the last bid, its doubling state and its true declarer
 `specContract d v h` (Spec/Laws.lean): passed out if `h` has no bid; otherwise the last bid, doubled /
@@ -174,24 +173,5 @@ example : specContract .N .none
     ⟨some ⟨1, by omega⟩, false, false, .none, some .S⟩ := by decide
 example : specContract .E .both [.pass, .pass, .pass, .rdbl, .dbl, .bid ⟨34, by omega⟩] =
     ⟨some ⟨34, by omega⟩, true, true, .both, some .E⟩ := by decide
-
-/-! ## For `BiddingPhase.contract()` AS TRANSLATED from the source on this run -/
-
-/-- at every reachable state the translated `contract()` returns the encoding of the model's contract
-(`None` before the end; the Laws' contract `specContract` after it) -/
-theorem translated_contract_is_spec (d : Seat) (v : Vul) (s : AState) (h : List Call) (hr : Reach d v s h) :
-    (Translated.P.runMethod Generated.PyCore.n_BiddingPhase Generated.PyCore.n_contract [Translated.encState s]).map (·.1)
-      = .ok (Translated.encOpt Translated.encContract s.contract) ∧
-    (EndedLaw h → s.contract = some (specContract d v h)) ∧ (¬ EndedLaw h → s.contract = none) := by
-  refine ⟨?_, contract_is_spec d v s h hr, contract_none_before_end d v s h hr⟩
-  apply Translated.contract_translated
-  by_cases he : EndedLaw h
-  · left; rw [contract_is_spec d v s h hr he]; rfl
-  · right
-    have ho : over h = false := by
-      cases ho : over h with
-      | false => rfl
-      | true => exact absurd (ended_law_of_over d h hr.leg ho) he
-    simp [hr.inv.act, ho]
 
 end Bridge.C03
